@@ -475,7 +475,7 @@ func classifyMiss(F *facts, reported map[int]bool, g *fnFacts) string {
 }
 
 func knownReason(why string) bool {
-	return why == "Defer.Args" || why == "Go.Args" || why == "widening"
+	return why == "widening"
 }
 
 func reasonOfFn(F *facts, ff *fnFacts) string {
@@ -501,7 +501,7 @@ func main() {
 	r := lib.Rand("c18")
 	_ = ssautil.AllFunctions
 
-	// 1. fixed corpus: the replay of F8
+	// 1. fixed corpus: F8 (defer_arg, go_arg: repaired in 3c101cd, regression cases; widening: open)
 	corpus := filepath.Join(lib.Root(), "corpus", "findings", "F08_reach_defer_go_args")
 	for _, sub := range []string{"defer_arg", "go_arg", "widening"} {
 		src, err := os.ReadFile(filepath.Join(corpus, sub, "main.go"))
